@@ -1,7 +1,10 @@
 """C14 — union values are decoded as the right variant, never lossily."""
 from __future__ import annotations
 
-from .. import findings
+import json
+
+from .. import e2e, findings, opsrig
+from ..common import rng
 from . import _generic as g
 
 PROP = "C14"
@@ -25,11 +28,120 @@ class _Scoped:
         return True if fid == "-" else self.known.hit(fid, case, what)
 
 
+# ------------------------------------------------------------------------------------------------------------------
+# end to end: GENERATED discriminated unions (the get_mapping() the generator writes, lazy imports included), decoded with the
+# package's own converter in a fresh interpreter
+VARIANT_POOL = ["Cat", "Dog", "Dog1", "BigBird", "HTTPProbe", "lizard", "cat_food", "V2Item"]
+DISC_PROPS = ["petType", "kind", "objectType", "object-type"]
+VALUE_POOL = ["cat", "kitten", "dog", "v1", "v2", "Bird.Big", "big bird", "LIZARD", "x-1", "0"]
+UNIQ_FIELDS = ["lives", "barkVolume", "wingSpan", "count", "legs", "size", "rank", "age"]
+
+
+def disc_case(i: int) -> dict:
+    r = rng(f"C14:disc:{i}")
+    NS = opsrig.impl_names()
+    names = r.sample(VARIANT_POOL, r.randint(2, 4))
+    prop = r.choice(DISC_PROPS)
+    values = r.sample(VALUE_POOL, len(VALUE_POOL))
+    schemas, mapping, uniq = {}, {}, {}
+    for k, n in enumerate(names):
+        uniq[n] = UNIQ_FIELDS[k]
+        schemas[n] = {"type": "object", "required": [prop, "name", uniq[n]],
+                      "properties": {prop: {"type": "string"}, "name": {"type": "string"}, uniq[n]: {"type": "integer"}}}
+    # 1-2 discriminator values per variant: aliases (two values -> one schema) are legal and common
+    order = []
+    for n in names:
+        for _ in range(r.choice([1, 1, 2])):
+            order.append((values.pop(), n))
+    r.shuffle(order)
+    for v, n in order:
+        mapping[v] = "#/components/schemas/" + n
+    kw = r.choice(["oneOf", "anyOf"])
+    schemas["Pet"] = {kw: [{"$ref": "#/components/schemas/" + n} for n in names], "discriminator": {"propertyName": prop, "mapping": mapping}}
+    schemas["Zoo"] = {"type": "object", "properties": {"star": {"$ref": "#/components/schemas/Pet"},
+                                                       "pets": {"type": "array", "items": {"$ref": "#/components/schemas/Pet"}},
+                                                       "byName": {"type": "object", "additionalProperties": {"$ref": "#/components/schemas/Pet"}}}}
+    doc = {"openapi": "3.0.3", "info": {"title": "T", "version": "1"}, "components": {"schemas": schemas},
+           "paths": {"/zoo": {"get": {"operationId": "getZoo", "responses": {"200": {"description": "ok", "content": {"application/json": {"schema": {"$ref": "#/components/schemas/Zoo"}}}}}}}}}
+
+    def payload(v, n):
+        return {prop: v, "name": "n" + str(r.randint(0, 99)), uniq[n]: r.randint(0, 9)}
+    items = []
+    for v, n in order:
+        items.append({"id": f"mapped:{v}", "cls": "Pet", "json": payload(v, n), "expect": "dataclass:" + NS.sanitize_class_name(n)})
+    items.append({"id": "unmapped", "cls": "Pet", "json": {prop: "no-such-value", "name": "x", uniq[names[0]]: 1}, "expect": "error"})
+    v0, n0 = order[0]
+    bad = payload(v0, n0)
+    bad[uniq[n0]] = "not-a-number"      # the mapped variant cannot decode it: must be reported, not retried as another variant
+    items.append({"id": "mapped-invalid", "cls": "Pet", "json": bad, "expect": "error"})
+    zoo = {"star": payload(*order[-1]), "pets": [payload(v, n) for v, n in order], "byName": {f"k{j}": payload(v, n) for j, (v, n) in enumerate(order[:2])}}
+    items.append({"id": "holder", "cls": "Zoo", "json": zoo, "expect": "dataclass:Zoo"})
+    return {"id": f"disc-{i}", "doc": doc, "items": items, "aliases": len(order) > len(names)}
+
+
+def case_fn(case: dict, d):
+    root = d / "proj"
+    gen = e2e.generate(case["doc"], root, package="pkg.client")
+    if not gen["ok"]:
+        return {"gen_ok": False, "gen_error": gen["error"]}
+    return {"gen_ok": True, "probe": e2e.probe(root, "pkg.client", None, [{"task": "roundtrip", "items": case["items"]}])}
+
+
+def judge_disc(case: dict, res: dict) -> list[tuple[dict, str]]:
+    """-> [(item, message)] for every item of a discriminated-union document that violates the property.
+    Variant identity is judged through the payload: every variant has a required key no other variant has, so a value that
+    re-encodes to the payload was decoded as the mapped variant (class names are the generator's business)."""
+    pr = res.get("probe") or {}
+    rt = pr.get("roundtrip") if isinstance(pr, dict) else None
+    if not isinstance(rt, list) or len(rt) != len(case["items"]) or (rt and "fatal" in rt[0]):
+        return [({"id": "package"}, f"generated package unusable: {json.dumps(pr)[:300]}")]
+    bad = []
+    for it, out in zip(case["items"], rt):
+        if it["expect"] == "error":
+            if "error" not in out:
+                bad.append((it, f"{it['id']}: payload {json.dumps(it['json'])} was decoded as {out.get('type')} instead of being reported"))
+        elif "error" in out:
+            bad.append((it, f"{it['id']}: conforming payload {json.dumps(it['json'])[:200]} rejected: {out['error']['msg'][:200]}"))
+        elif not str(out.get("type", "")).startswith("dataclass:"):
+            bad.append((it, f"{it['id']}: decoded as {out.get('type')}, not as a model"))
+        elif not opsrig.json_equiv(out.get("back"), it["json"]):
+            bad.append((it, f"{it['id']}: re-encoded as {json.dumps(out.get('back'))[:200]} != {json.dumps(it['json'])[:200]}"))
+    return bad
+
+
+def e2e_discriminated(run, ctx) -> None:
+    cases = [disc_case(i) for i in range(ctx.budget(16, 160))]
+    results = e2e.run_cases("vf.props.C14:case_fn", cases)
+    run.cov["rule"] = (run.cov.get("rule") or "") + ("[e2e discriminated] seeded documents with a oneOf/anyOf of 2-4 object schemas (names incl. digits, acronyms, lower/snake case), a "
+                       "discriminator property (camelCase / kebab) and a mapping with 1-2 values per variant (aliases) -> generated package imported in a fresh interpreter -> every mapped value "
+                       "must select exactly its variant and re-encode to the payload; an unmapped value and a mapped-but-undecodable payload must be errors; also inside a list / map / field "
+                       "of a holder model; distinct by (document, item), all non-trivial ")
+    for case, res in zip(cases, results):
+        if "infra_error" in res:
+            run.infra_errors.append(res["infra_error"])
+            continue
+        if not res.get("gen_ok"):
+            run.dist("e2e-discriminated", "generation rejected")
+            continue
+        run.dist("e2e-discriminated", "aliases" if case["aliases"] else "one value per variant")
+        for it in case["items"]:
+            run.count({"doc": case["id"], "item": it["id"], "json": it["json"]}, nontrivial=True)
+        run.cov["traces_validated_against_impl"] += len(case["items"])
+        bad = judge_disc(case, res)
+        if not bad:
+            run.sample({"e2e": case["id"], "mapping": case["doc"]["components"]["schemas"]["Pet"]["discriminator"]["mapping"]}, limit=3)
+        for it, msg in bad[:2]:
+            if len(run.violations) < 5:
+                run.violation("input", {"e2e": "discriminated", "doc": case["doc"], "items": case["items"]}, observed=msg,
+                              expected="the variant the discriminator value maps to, re-encoding to the payload; errors for unmapped / undecodable payloads", what=msg[:400])
+
+
 def check(run, ctx) -> None:
     known = findings.Known(run, PROP)
     g.run_corr(run, ctx, CORR, "Conv (structure/unstructure/_structure_union/serializer vs the real converter)", quick=1.0, thorough=8.0)
     g.replay_witnesses(run, known, {"F24": CORR, "F24b": CORR})
     g.run_oracle(run, ctx, _Scoped(known, CLASSES), CORR, "converter laws on the real converter (random dataclass type trees, unions, payloads)", CLASSES, quick=1.0, thorough=8.0)
+    e2e_discriminated(run, ctx)
     known.report_unreplayed()
 
 
@@ -38,4 +150,9 @@ def search(run, ctx) -> None:
 
 
 def replay(run, ctx, rec) -> bool:
+    case = rec.get("case") or {}
+    if case.get("e2e") == "discriminated":
+        c = {"id": "replay", "doc": case["doc"], "items": case["items"]}
+        res = e2e.run_cases("vf.props.C14:case_fn", [c], workers=1)[0]
+        return bool(res.get("gen_ok")) and bool(judge_disc(c, res))
     return g.replay_generic(rec)
